@@ -134,7 +134,7 @@ def _run(chk, tier, model_ok):
         cmds = viewcorr.pair_commands(r, case, 8 if quick else 24)
 
         def on_crash(cmd, rr, case=case):
-            crashes.append((case.name, cmd, viewcorr.crash_key(rr, cmd)))
+            crashes.append((case.name, cmd, viewcorr.crash_key(rr, cmd, case)))
         answers = viewcorr.run_surviving(case, cmds, on_crash, max_crashes=6)
         followups = []
         for c, a in zip(cmds, answers):
